@@ -268,14 +268,21 @@ def bits_obligations(prog):
                           "stores %s" % sorted(stores.items()), props={"C12", "C13", "C05"}))
     # serializer coverage: secp256k1_pedersen_scalar_set_u64 emits the 8 bytes of value into data[24..32), top byte first
     f = prog.fn("secp256k1_pedersen_scalar_set_u64")
-    bounds = sorted({int_val(strip(b.cond)[3]) for b in f.blocks.values()
-                     if b.cond is not None and kind(strip(b.cond)) == "bin" and strip(b.cond)[1] == "<" and int_val(strip(b.cond)[3]) is not None})
+    from giv import giv as _giv, fmt as _fmt
+    g = _giv(prog, f.name)
+    idx_iv = None
+    for el in f.elems():
+        x = el.e
+        if kind(x) == "assign" and kind(strip(x[2])) == "index" and any(y[0] == "bin" and y[1] == ">>" for y in walk(x[3])):
+            env = g.env_at(el)
+            if env is not None:
+                idx_iv = g.ev(strip(x[2])[2], env)
     shr = sorted({int_val(x[3]) for el in f.elems() for x in walk(el.e) if x[0] == "bin" and x[1] == ">>" and int_val(x[3]) is not None})
     shl = sorted({int_val(x[3]) for el in f.elems() for x in walk(el.e) if x[0] == "assign" and x[1] == "<<=" and int_val(x[3]) is not None})
-    ok = bounds == [24, 32] and shr == [56] and shl == [8]
+    ok = idx_iv == (24, 31) and shr == [56] and shl == [8]
     obs.append(Obligation("R-BITS", "R-BITS:pedersen_scalar_set_u64", f.loc, f.name,
                           "the 64-bit value must be serialised into exactly the last 8 of 32 bytes, most significant byte first", ok,
-                          "loop bounds %s, right shifts %s, left-shift steps %s" % (bounds, shr, shl), props={"C08"}))
+                          "byte index of the emitting store ranges over %s, right shifts %s, left-shift steps %s" % (_fmt(idx_iv), shr, shl), props={"C08"}))
     return obs, {"masks": len(masks)}
 
 
